@@ -6,16 +6,16 @@
 // Kernel style on a real SPxLPBase<double> (harness/lp_build.h) that has been scaled by SPxScaler::applyScaling with
 // arbitrary row/column exponents. The new column/row is given in UNSCALED terms (that is the contract of scale=true); the
 // code chooses its exponent itself (computeScaleExp) and stores scaled data. Asserted: the UNSCALED VIEW of the enlarged LP
-// (lowerUnscaled/upperUnscaled/objUnscaled, lhsUnscaled/rhsUnscaled, getCoefUnscaled, and the row copy unscaled by the
-// harness with the exponents found in the LP) shows exactly the data passed in for the new column/row, bit for bit,
+// (lowerUnscaled/upperUnscaled/objUnscaled, lhsUnscaled/rhsUnscaled, getColVectorUnscaled/getRowVectorUnscaled of the new
+// column/row, getCoefUnscaled, and the row copy unscaled by the harness with the exponents found in the LP) shows exactly the data passed in for the new column/row, bit for bit,
 // exactly the old data everywhere else, and both matrix copies hold identical numbers. The value of the new exponent is
 // NOT asserted, only that it is applied consistently.
 // Reference = dense copy `d` of the LP taken before scaling + the arguments of the call.
 //
-// Abstraction (solver build only): SVectorBase<double>::operator=(const SVectorBase&) and ::add(n, idx[], val[]) skip
-// entries whose value is 0.0; on symbolic values that branch makes vector SIZES symbolic. They are replaced by models that
-// copy every entry and ASSERT that the entry is nonzero (assertion 90/91), which is the real behaviour under that
-// condition; the native replay runs the real functions.
+// Abstraction (solver build only): SVectorBase<double>::operator=(const SVectorBase&), ::add(n, idx[], val[]) and
+// ::add(i, val) skip entries whose value is 0.0; on symbolic values that branch makes vector SIZES symbolic. They are replaced
+// by models that copy every entry and ASSERT that the entry is nonzero (assertions 90/91/92), which is the real behaviour
+// under that condition; the native replay runs the real functions.
 #include "lp_build.h"
 using namespace soplex; using namespace vph;
 #ifdef VNR
@@ -56,6 +56,14 @@ extern "C" {
          self->set_size(n);
       }
       return *self;
+   }
+   void m_sv_add1(SVectorBase<double>* self, int i, const double& v)
+   {
+      vp_assert(v != 0.0, 92);
+      int n = self->size();
+      self->m_elem[n].idx = i;
+      self->m_elem[n].val = v;
+      self->set_size(n + 1);
    }
    void m_sv_addn(SVectorBase<double>* self, int n, const int idx[], const double val[])
    {
@@ -128,6 +136,18 @@ static void check_entry(const LP& lp, const Sc& sc, int i, int j, double want)
    vp_assert(sc.getCoefUnscaled(lp, i, j) == want, 26);
    vp_assert(ldexp(rowcoef(lp, i, j), -w.rexp()[i] - w.cexp()[j]) == want, 28);
 }
+// the sparse vector `got` (from getColVectorUnscaled / getRowVectorUnscaled) has exactly the pattern `mask`, indices ascending,
+// and the values dense[] bit for bit
+static void check_vector(const DSVectorBase<double>& got, unsigned mask, int n, const double* dense)
+{
+   int k = 0;
+   for(int i = 0; i < n; ++i) if((mask >> i) & 1u)
+      {
+         vp_assert(k < got.size() && got.index(k) == i && same_bits(got.value(k), dense[i]), 31);
+         ++k;
+      }
+   vp_assert(got.size() == k, 32);
+}
 static void check_col(const LP& lp, int j, double lo, double up, double obj)
 {
    vp_assert(same_bits(lp.lowerUnscaled(j), lo), 21);
@@ -167,6 +187,11 @@ template <int FORM> static void add_col()
    // new column: exactly what was passed in
    check_col(lp, NC, lo, up, obj);
    for(int i = 0; i < NR; ++i) check_entry(lp, sc, i, NC, cv[i]);
+   {
+      DSVectorBase<double> got(NR);
+      lp.getColVectorUnscaled(NC, got);
+      check_vector(got, CMASK, NR, cv);
+   }
    // everything else unchanged
    for(int j = 0; j < NC; ++j) check_col(lp, j, d.lo[j], d.up[j], d.obj[j]);
    for(int i = 0; i < NR; ++i)
@@ -202,6 +227,11 @@ template <int FORM> static void add_row()
    for(int i = 0; i < NR; ++i) vp_assert(lp.rexp()[i] == re[i], 4);
    check_row(lp, NR, lhs, rhs);
    for(int j = 0; j < NC; ++j) check_entry(lp, sc, NR, j, rv[j]);
+   {
+      DSVectorBase<double> got(NC);
+      lp.getRowVectorUnscaled(NR, got);
+      check_vector(got, RMASK, NC, rv);
+   }
    for(int i = 0; i < NR; ++i)
    {
       check_row(lp, i, d.lhs[i], d.rhs[i]);
